@@ -386,11 +386,3 @@ func (g *genP2) specValid() bool {
 	}
 	return true
 }
-
-// verifSameBytes: a and b are the same byte string (length and content).
-func verifSameBytes(a, b []byte) bool {
-	if len(a) != len(b) {
-		return false
-	}
-	return ndBytesEqual(a, b)
-}
